@@ -69,7 +69,7 @@ def run(unit, repo, build_dir, timeout=900, rlimit=None, extra_args=None):
     report = ex.report
     t_extract = time.time() - t0
 
-    cmd = ["verus", out_rs, "--output-json", "--time", "--multiple-errors", "20",
+    cmd = ["verus", out_rs, "--output-json", "--time", "--multiple-errors", "5",
            "--error-format=json", "--num-threads", "16"]
     if rlimit:
         cmd += ["--rlimit", str(rlimit)]
